@@ -53,6 +53,30 @@ package main
 //@ at call Encode assert[userinfo-only-if-session] ret1(getAuthenticatedSession) == nil && ret0(getAuthenticatedSession) != nil
 //@ ensures[unauthenticated-401] ret1(getAuthenticatedSession) != nil ==> called(http.Error) && arg(http.Error, 2) == 401 && !called(Encode)
 
+// ---------------------------------------------------------------- C03 / C06: the OAuth state carries nonce and redirect, byte for byte
+// The state is "<nonce>:<redirect>", base64url (unpadded) when encode_state is on. Decoding splits at the FIRST colon: the
+// nonce is a base64url hash and has none, the redirect may have many.
+//@ define stateOf(n string, r string, e bool) string = ite(e, b64enc(base64.RawURLEncoding, n + ":" + r), n + ":" + r)
+//@ define stateText(s string, e bool) string = ite(e, b64dec(base64.RawURLEncoding, s), s)
+//@ define stateNonce(s string, e bool) string = stateText(s, e)[:Index(stateText(s, e), ":")]
+//@ define stateRedirect(s string, e bool) string = stateText(s, e)[Index(stateText(s, e), ":") + 1:]
+//@ prop C03 C06
+//@ lemma[state-round-trip; uses b64-roundtrip] forall n string, r string, e bool :: !Contains(n, ":") ==> Contains(stateText(stateOf(n, r, e), e), ":")
+//@     && stateNonce(stateOf(n, r, e), e) == n && stateRedirect(stateOf(n, r, e), e) == r
+
+//@ func encodeState
+//@ safety
+//@ nomod
+//@ prop C03 C06
+//@ ensures[state-is-nonce-colon-redirect] result == stateOf(nonce, redirect, encode)
+
+//@ func decodeState
+//@ safety
+//@ nomod
+//@ prop C03 C06
+//@ ensures[splits-at-the-first-colon] Contains(stateText(state, encode), ":") ==> ret2 == nil && ret0 == stateNonce(state, encode) && ret1 == stateRedirect(state, encode)
+//@ ensures[no-colon-is-an-error] !Contains(stateText(state, encode), ":") ==> ret2 != nil
+
 // ---------------------------------------------------------------- C03 / C05 / C08 / C13 / C14 / C06: the login callback
 //@ func (*OAuthProxy).OAuthCallback
 //@ prop C03
@@ -173,6 +197,16 @@ package main
 //@ ensures[only-if-some-domain-rule-matches] result ==> exists k int :: 0 <= k && k < len(allowedDomains) && domainRule(email, allowedDomains[k])
 //@ ensures[if-some-domain-rule-matches] !result ==> forall j int :: 0 <= j && j < len(allowedDomains) ==> !domainRule(email, allowedDomains[j])
 
+// the validator is built over the configured allow-list file (that very path: the watcher follows it through renames and
+// symlink swaps) and the configured domains; it allows everybody only if a "*" rule is configured
+//@ func newValidatorImpl
+//@ safety
+//@ prop C08 C20
+//@ at call NewUserMap assert[the-allow-list-is-the-configured-file] arg(NewUserMap, 0) == usersFile && arg(NewUserMap, 1) == done
+//@     && arg(NewUserMap, 2) == onUpdate
+//@ loop 0 invariant[allow-all-only-for-a-star-rule] rangeindex >= -1 && rangeindex < len(domains) && (allowAll ==> exists j int :: 0 <= j && j <= rangeindex && domains[j] == "*")
+//@ ensures[allow-all-only-for-a-star-rule] allowAll ==> exists j int :: 0 <= j && j < len(domains) && domains[j] == "*"
+
 //@ func newValidatorImpl$1
 //@ nomod
 //@ prop C08
@@ -209,6 +243,18 @@ package main
 //@ ensures[needs-a-common-group] len(ret(extractAllowedEntities)) != 0 ==>
 //@     (result <==> exists k int :: 0 <= k && k < len(s.Groups) && inmap(ret(extractAllowedEntities), s.Groups[k]))
 //@ ensures[reads-allowed_groups] arg(extractAllowedEntities, 1) == "allowed_groups" && arg(extractAllowedEntities, 0) == req
+
+// the auth-only constraints are the comma-separated, non-empty items of the URL query's values for the key: read from the
+// query string only (a request body has no say), and without touching the request
+//@ func extractAllowedEntities
+//@ safety
+//@ nomod
+//@ fresh
+//@ prop C08
+//@ at call Query assert[constraints-come-from-the-url-query] recv(Query) == req.URL
+//@ loop 0 invariant[only-non-empty-items] !inmap(entities, "") && rangeindex >= -1 && (len(ret(Query)[key]) == 0 ==> len(entities) == 0)
+//@ loop 1 invariant[only-non-empty-items] !inmap(entities, "") && len(ret(Query)[key]) > 0
+//@ ensures[from-the-query-values-of-the-key] called(Query) && !inmap(result, "") && (len(ret(Query)[key]) == 0 ==> len(result) == 0)
 
 //@ func checkAllowedEmails
 //@ safety
